@@ -58,8 +58,8 @@ func (dv *defaultVerifierSimple) verifyRoot(root *Node) ([]string, []string, err
 
 			if err != nil {
 				if errors.Is(err, fs.ErrNotExist) {
-					// markdown上のrootが検査対象パスに無いとエラー
-					return verifyError{noExists: []string{dir}}
+					// markdown上のrootが検査対象パスに無いとエラー (配下のパスも全て無いものとして報告する)
+					return fs.SkipDir
 				}
 				return err
 			}
